@@ -153,6 +153,11 @@ pub fn generate(prop: &str, thorough: bool, rng: &mut Rng) -> Case {
                 2 => vec![0, 1, 2, 3, 4, 5, 6],
                 _ => vec![1, 1, 4],
             };
+            // with values the disk tier has to drop in the mix: half of these runs get a write-queue threshold of a few
+            // entries (the overload exclusion must only apply under real overload)
+            if classes.contains(&6) && rng.chance(1, 2) {
+                cfg.insert("submit_thr_pages".into(), 16 + rng.below(40) as i64);
+            }
             let mix = Mix {
                 insert: 38,
                 writer: if ondisk_mod > 0 { 0 } else { 4 },
